@@ -503,6 +503,31 @@ pub fn run(ctx: &Ctx) -> Value {
         // otherwise a fixed sample of one in sixteen
         sampled21 = sweep(&mut tw, &mut ep, &mut rng, &values, 0, 21, &[], "z", if full21 { 1 } else { 16 }, 1);
     }
+    // resolution in a zone with a fold and a gap: chrono::Local under a POSIX rule, read by a fresh thread (a wall clock in the repeated hour,
+    // the timestamp of either pass, the offset of either pass or a foreign one)
+    std::env::set_var("TZ", "CET-1CEST,M3.5.0,M10.5.0/3");
+    let zone_events = std::thread::spawn(move || {
+        use chrono::Local;
+        let mut out: Vec<Value> = Vec::new();
+        let mut k = 0i64;
+        for (y, mo, d, h, mi) in [(2021, 10, 31, 2, 30), (2021, 10, 31, 2, 0), (2021, 10, 31, 2, 59), (2021, 10, 31, 1, 30), (2021, 10, 31, 3, 0), (2021, 3, 28, 2, 30), (2021, 3, 28, 3, 30), (2021, 7, 1, 12, 0)] {
+            let wall = NaiveDate::from_ymd_opt(y, mo, d).unwrap().and_hms_opt(h, mi, 7).unwrap();
+            for off_ts in [3_600i64, 7_200] { for off_field in [3_600i64, 7_200, 0, 5_400] { for with_ts in [true, false] {
+                let ts = wall.and_utc().timestamp() - off_ts;
+                let mut p = Parsed::new();
+                let _ = p.set_year(y as i64); let _ = p.set_month(mo as i64); let _ = p.set_day(d as i64); let _ = p.set_hour(h as i64); let _ = p.set_minute(mi as i64); let _ = p.set_second(7);
+                let _ = p.set_offset(off_field);
+                if with_ts { let _ = p.set_timestamp(ts); }
+                k += 1;
+                let ts_eff = if with_ts { ts } else { wall.and_utc().timestamp() - off_field };       // without the field nothing can contradict it
+                out.push(ev("to_dtz_zone", json!({"ep": 9_000_000 + k, "w": {"n": dn(wall.date()), "secs": h * 3600 + mi * 60 + 7}, "ts": big(ts_eff as i128), "off": off_field, "with_ts": with_ts}), || json!({
+                    "r": match p.to_datetime_with_timezone(&Local) { Ok(z) => json!({"ok": {"u": crate::proj::ndt(z.naive_utc()), "off": chrono::Offset::fix(z.offset()).local_minus_utc()}}), Err(e) => json!({"err": format!("{:?}", e.kind())}) }})));
+            } } }
+        }
+        out
+    }).join().unwrap_or_default();
+    std::env::remove_var("TZ");
+    for e in zone_events { tw.emit(e); }
     tw.finish();
     json!({"events": tw.total, "episodes": ep, "derived_episodes": n_derived, "independent_episodes": n_indep, "timestamp_episodes": n_ts, "subset_sweep_episodes": swept,
            "subsets_of_all_21_fields": sampled21, "all_2_21_subsets": full21 && !ctx.quick()})
